@@ -39,7 +39,6 @@ structure GeomFor (g : Abs.Geom) (h : H) : Prop where
   canTrunc : g.canTrunc = h.canTruncate
   ioMayFail : g.ioMayFail = false
   tailClean : g.tailClean = false
-  lossless : ∀ t, g.lossless t = false
   holeZero : ∀ t, g.holeZero t = false
 
 theorem absSt_sim (h : H) (s : Store) (bi : BInv h s) : Sim h s (absSt h s) :=
